@@ -126,6 +126,14 @@ impl One {
         let t = self.inst();
         self.iface.poll_at(t, &self.sockets).map(|x| x.total_micros())
     }
+    /// connect() with an explicit local address of the other address family (refused with
+    /// Unaddressable after the cheap argument checks have passed)
+    pub fn connect_bad(&mut self) -> bool {
+        let cx = self.iface.context();
+        let peer = IpAddress::Ipv4(Ipv4Address::new(PEER[0], PEER[1], PEER[2], PEER[3]));
+        let local = IpAddress::Ipv6(smoltcp::wire::Ipv6Address::new(0xfd00, 0, 0, 0, 0, 0, 0, 1));
+        self.sockets.get_mut::<tcp::Socket>(self.h).connect(cx, (peer, PPORT), (local, LPORT)).is_ok()
+    }
     pub fn connect(&mut self) -> bool {
         let cx = self.iface.context();
         let peer = IpAddress::Ipv4(Ipv4Address::new(PEER[0], PEER[1], PEER[2], PEER[3]));
@@ -576,6 +584,11 @@ pub struct FsmCfg {
 #[derive(Clone, Debug, PartialEq)]
 pub enum Api {
     Listen,
+    /// listen() / connect() with arguments the socket must refuse (port 0; a local address whose
+    /// family differs from the remote's): an API call that returns an error must not
+    /// change the state
+    ListenBad,
+    ConnectBad,
     Connect,
     Close,
     Abort,
@@ -672,8 +685,8 @@ impl Fsm {
         let o = &self.obs;
         match stim {
             Stim::Api(Api::Abort, _) => to == State::Closed,
-            Stim::Api(Api::Listen, ok) => *ok && matches!(from, State::Closed | State::TimeWait) && to == State::Listen,
-            Stim::Api(Api::Connect, ok) => *ok && matches!(from, State::Closed | State::TimeWait) && to == State::SynSent,
+            Stim::Api(Api::Listen | Api::ListenBad, ok) => *ok && matches!(from, State::Closed | State::TimeWait) && to == State::Listen,
+            Stim::Api(Api::Connect | Api::ConnectBad, ok) => *ok && matches!(from, State::Closed | State::TimeWait) && to == State::SynSent,
             Stim::Api(Api::Close, _) => matches!(
                 (from, to),
                 (State::Listen, State::Closed)
@@ -867,7 +880,7 @@ impl Harness for Fsm {
             }
             return v;
         }
-        for a in [Api::Listen, Api::Connect, Api::Close, Api::Abort, Api::Send1, Api::Recv] {
+        for a in [Api::Listen, Api::Connect, Api::Close, Api::Abort, Api::Send1, Api::Recv, Api::ListenBad, Api::ConnectBad] {
             v.push((FsmEv::Api(a), 0));
         }
         v.push((FsmEv::ToPollAt, 0));
@@ -960,6 +973,8 @@ impl Harness for Fsm {
                         }
                         r
                     }
+                    Api::ListenBad => self.w.sock().listen(0).is_ok(),
+                    Api::ConnectBad => self.w.connect_bad(),
                     Api::Connect => {
                         let r = self.w.connect();
                         if r {
